@@ -192,6 +192,37 @@ Fixpoint name_groups (N : Z) (i : nat) (gss : list (list Z)) : list group :=
   end.
 
 (* =========================================================================================
+   No hidden state: the table (method of class Cell, attributes of `self` it writes), regenerated from nml.py on every
+   run (impl/c13_impl.py self_writes), must show no write for the lookup / query / sectioning methods, except the two
+   documented caches.  (The models above are pure functions of the cell's segments and groups.)
+   ========================================================================================= *)
+Definition tracked_methods : list string :=
+  ["get_segment"; "get_segments_by_substring"; "get_actual_proximal"; "get_segment_length"; "get_segment_surface_area";
+   "get_segment_volume"; "get_segment_ids_vs_segments"; "get_all_segments_in_group"; "get_ordered_segments_in_groups";
+   "get_segment_group"; "get_segment_groups_by_substring"; "get_segment_adjacency_list"; "get_graph"; "get_distance";
+   "get_all_distances_from_segment"; "get_segments_at_distance"; "get_branching_points"; "get_extremeties";
+   "get_segment_location_info"; "get_morphology_root"; "create_unbranched_segment_group_branches"; "__sectionise";
+   "add_segment_group"; "add_unbranched_segment_group"; "reorder_segment_groups"]%string.
+
+Definition allowed_writes (m : string) : list string :=
+  if String.eqb m "get_segment_adjacency_list" then ["adjacency_list"%string]
+  else if String.eqb m "get_graph" then ["cell_graph"%string] else [].
+
+Fixpoint slookup (t : list (string * list string)) (m : string) : option (list string) :=
+  match t with
+  | [] => None
+  | (k, v) :: r => if String.eqb k m then Some v else slookup r m
+  end.
+
+Definition str_mem (x : string) (l : list string) : bool := existsb (String.eqb x) l.
+
+Definition writes_ok (t : list (string * list string)) : bool :=
+  forallb (fun m => match slookup t m with
+                    | Some ws => forallb (fun w => str_mem w (allowed_writes m)) ws
+                    | None => false
+                    end) tracked_methods.
+
+(* =========================================================================================
    Correspondence
    ========================================================================================= *)
 Fixpoint strs_eqb (a b : list string) : bool :=
